@@ -136,7 +136,9 @@ def binary_rev(t, kf, kb, prod, major, minor, backend=None):
     x2 = 2 * X * kf
     x3 = -kb - x0 - x1
     x4 = -x2 + x3
-    x5 = be.sqrt(-4 * kf * (X ** 2 * kf + X * x0 + X * x1 + Z * x0) + x4 ** 2)
+    # x4**2 - 4*kf**2*(X + Y)*(X + Z) written as a sum of non-negative terms
+    # (the difference cancels to zero or below for kb << kf*(Y + Z), Y ~ Z):
+    x5 = be.sqrt(kb * (kb + 2 * (x0 + x1 + x2)) + (x0 - x1) ** 2)
     x6 = kb + x0 + x1 + x5
     x7 = (x3 + x5) * be.exp(-t * x5)
     x8 = x3 - x5
